@@ -19,6 +19,9 @@ def _preimport():
             importlib.import_module(m.name)
         except Exception:
             pass
+    import sys
+    from vf.sched import own_synchronisation
+    own_synchronisation([m for n, m in list(sys.modules.items()) if m is not None and (n == "bits" or n.startswith("bits."))])
 
 
 def _one_in_child(run, judge, prefix, bound, warmup=None):
@@ -34,9 +37,16 @@ def _one_in_child(run, judge, prefix, bound, warmup=None):
             if warmup is not None:
                 warmup()          # sequential calls made before the threads start (non-initial state of lazily built tables)
             ex = Explorer(run, bound=bound, cache=False)
+            ex_deadlock = [None]
             ctx, obs = ex.one(prefix)
-            results, errors, abort = obs
-            viol = [("concurrent/non-termination", "calls did not finish within the step horizon")] if abort == "horizon" else list(judge(results, errors))
+            results, errors, abort = obs[:3]
+            ex_deadlock[0] = obs[3] if len(obs) > 3 else None
+            if abort == "horizon":
+                viol = [("concurrent/non-termination", "calls did not finish within the step horizon")]
+            elif abort == "deadlock":
+                viol = [("concurrent/deadlock", "the concurrent calls deadlock: " + str(ex_deadlock[0]))]
+            else:
+                viol = list(judge(results, errors))
             payload = {"choices": ctx.choices, "points": [(i, n, costs, cb, st[1] if isinstance(st, tuple) and st and st[0] == "hit" else 1) for (i, n, costs, cb, st) in ctx.points], "viol": viol}
         except BaseException:
             import traceback
@@ -69,7 +79,7 @@ def explore_calls(acc, calls, files, bound, judge, kind, case, max_exec=50_000, 
             return target
         sch = Sched(ctx, [mk(i) for i in range(len(calls))], want, state_fn=None, horizon=horizon)
         sch.run()
-        return results, {t: f"{type(e).__name__}: {e}" for t, e in sch.errors.items()}, sch.abort
+        return results, {t: f"{type(e).__name__}: {e}" for t, e in sch.errors.items()}, sch.abort, sch.deadlock
 
     stack = [[]]
     n_exec = transitions = skipped_hits = 0
@@ -127,10 +137,12 @@ def replay_calls(calls, files, choices, judge, horizon=200_000, warmup=None):
             return target
         sch = Sched(ctx, [mk(i) for i in range(len(calls))], want, state_fn=None, horizon=horizon)
         sch.run()
-        return results, {t: f"{type(e).__name__}: {e}" for t, e in sch.errors.items()}, sch.abort
+        return results, {t: f"{type(e).__name__}: {e}" for t, e in sch.errors.items()}, sch.abort, sch.deadlock
     ex = Explorer(run, cache=False)
     ctx, obs = ex.one(choices)
-    results, errors, abort = obs
+    results, errors, abort, dl = obs
+    if abort == "deadlock":
+        return [("concurrent/deadlock", "the concurrent calls deadlock: " + str(dl))]
     return judge(results, errors)
 
 
